@@ -3,14 +3,16 @@
 -/
 import MptModel.Impl.Convert
 import MptModel.Lemmas.Convert
+import MptModel.Lemmas.Float
 set_option linter.unusedSimpArgs false
 namespace Mpt.Conv
 open Mpt.Scalar Mpt.Flt
 
 /-! ### query mode gives the same verdict -/
 
-/-- the store is under `if (dest)` and writes an object of the target's size -/
-def shapeOK (c : Case) (tgt : Ty) : Bool := c.guarded && c.store.size == (tgtCTy tgt).size
+/-- the store is under `if (dest)`, no range test hides in that block, and the store writes an object of the
+    target's size -/
+def shapeOK (c : Case) (tgt : Ty) : Bool := c.guarded && c.destGuards.isEmpty && c.store.size == (tgtCTy tgt).size
 
 def checkShapePair (src tgt : Ty) : Bool :=
   match fnOf src with
@@ -59,15 +61,15 @@ theorem query_pair (src tgt : Ty) (hp : checkShapePair src tgt = true) (s : Src)
     cases hl : f.lookup tgt.code with
     | none => rfl
     | some c =>
-      simp only [hl, shapeOK, Bool.and_eq_true, beq_iff_eq] at hp ⊢
-      obtain ⟨hg, hsz⟩ := hp
+      simp only [hl, shapeOK, Bool.and_eq_true, beq_iff_eq, List.isEmpty_iff] at hp ⊢
+      obtain ⟨⟨hg, hdg⟩, hsz⟩ := hp
       unfold runCase
       by_cases hsup : c.supported f.src = true
       · simp only [hsup, Bool.not_true, Bool.false_eq_true, if_false]
         cases hgd : evalGuards f.src s c.guards with
         | ok u =>
           obtain ⟨o, ho⟩ := readBack_ok tgt c.store s hsz
-          simp [hg, ho, verdict]
+          simp [hg, hdg, evalGuards, ho, verdict]
         | err e => simp [verdict]
         | null => simp [verdict]
         | oob => simp [verdict]
@@ -104,7 +106,8 @@ theorem ofInt_toInt (v : Int) : (ofInt v).toInt? = some v := by
 
 /-- integer source, floating target: guards never fault, the store is guarded and has exactly the target's type -/
 def checkCaseF (src : CTy) (c : Case) (tgt : Ty) : Bool :=
-  !src.isFloat && tgt.isFloat && c.guarded && c.store == tgtCTy tgt && (stepGuards (srcIv src) c.guards).isSome
+  !src.isFloat && tgt.isFloat && c.guarded && c.destGuards.isEmpty && c.ret == tgt.size && c.store == tgtCTy tgt &&
+  (stepGuards (srcIv src) c.guards).isSome
 
 def checkPairF (src tgt : Ty) : Bool :=
   match fnOf src with
@@ -125,7 +128,7 @@ def precision (tgt : Ty) : Nat := (tgtCTy tgt).fmt.p
 theorem checkPairF_sound (src tgt : Ty) (v : Int) (hp : checkPairF src tgt = true)
     (hs : src.isFloat = false) (hv : inRange src v) (hsmall : v.natAbs < 2 ^ precision tgt) :
     (∃ e, conv src tgt (.int v) true = .err e) ∨
-    (∃ n, conv src tgt (.int v) true = .ok (some (.flt (ofInt v)), n)) := by
+    conv src tgt (.int v) true = .ok (some (.flt (ofInt v)), tgt.size) := by
   unfold checkPairF at hp
   unfold conv
   cases hf : fnOf src with
@@ -143,8 +146,8 @@ theorem checkPairF_sound (src tgt : Ty) (v : Int) (hp : checkPairF src tgt = tru
       left
       exact ⟨f.dflt, by simp [hp]⟩
     | some c =>
-      simp only [hl, checkCaseF, Bool.and_eq_true, Bool.not_eq_true', beq_iff_eq] at hp
-      obtain ⟨⟨⟨⟨hsf, htf⟩, hg⟩, hst⟩, hsome⟩ := hp
+      simp only [hl, checkCaseF, Bool.and_eq_true, Bool.not_eq_true', beq_iff_eq, List.isEmpty_iff] at hp
+      obtain ⟨⟨⟨⟨⟨⟨hsf, htf⟩, hg⟩, hdg⟩, hret⟩, hst⟩, hsome⟩ := hp
       obtain ⟨iv, hiv⟩ := Option.isSome_iff_exists.mp hsome
       have hsup : c.supported f.src = true := by simp [Case.supported, hsf]
       rcases stepGuards_sound f.src c.guards (srcIv f.src) iv v hiv ⟨hr.1, hr.2⟩ with ⟨hok, _⟩ | ⟨e, he⟩
@@ -159,10 +162,9 @@ theorem checkPairF_sound (src tgt : Ty) (v : Int) (hp : checkPairF src tgt = tru
           · rw [hst]; cases tgt <;> simp [Ty.isFloat] at htf <;> simp [tgtCTy, CTy.fmt, binary32, binary64, x87ext]
           · rw [hst]; cases tgt <;> simp [Ty.isFloat] at htf <;> simp [tgtCTy, CTy.fmt, binary32, binary64, x87ext]
           · rw [hst]; exact hsmall
-        refine ⟨c.ret, ?_⟩
         have hwf : (tgtCTy tgt).isFloat = true := by rw [← hst]; exact hstf
         rw [hst] at hrnd
-        simp [runCase, hsup, hok, doStore, hrnd, readBack, hst, hwf]
+        simp [runCase, hsup, hok, hdg, evalGuards, doStore, hrnd, readBack, hst, hwf, hret]
       · left
         exact ⟨e, by simp [runCase, hsup, he]⟩
 
